@@ -9,6 +9,6 @@ CONSTANTS
   MaxDeliver = 3
 CONSTRAINT Track
 INVARIANTS Conform C39_AtMostOnce C39_NoLossAfterSwitch C39_FenceClosesSource
-PROPERTIES C39_ReplayNoop C39_NonOwnerRefuses
+PROPERTIES C39_ReplayNoop C39_AnsweredMeansRecorded C39_NonOwnerRefuses
 POSTCONDITION Accepted
 CHECK_DEADLOCK FALSE
